@@ -1028,7 +1028,7 @@ func (Area) Gen(r *rand.Rand, tier string, emit func(string)) {
 	// 4. seeded random scenarios: random messages (incl. invalid UTF-8), details, nests, headers
 	n := 1500
 	if tier == "thorough" {
-		n = 60000
+		n = 200000
 	}
 	for i := 0; i < n; i++ {
 		cc := common.Pick(r, ctCases)
